@@ -10,7 +10,9 @@ VERIF = os.path.dirname(HERE)
 
 NOTE = ("Trusted base: Lean 4.33 kernel, Mathlib v4.33 single modules, axioms propext/Classical.choice/Quot.sound only "
         "(audited with #print axioms on every run; no sorry/admit/native_decide/bv_decide/own axioms); the translator "
-        "tools/gen_from_source.py; the C++ harness and the Python comparison/monitor code; theorems are over the model at R, "
+        "tools/gen_from_source.py with tools/cxx2lean.py and tools/gen_{solver,main,run,init}_code.py (syntax-directed: one structure update per "
+        "assignment, one left fold per loop; statement table for Solver::run; statements before/after the translated loops pinned literally); "
+        "the C++ harness and the Python comparison/monitor code; theorems are over the model at R, "
         "the code and the correspondence run at IEEE double; boost adjacency_list ordering, std::map/set, libstdc++ "
         "mt19937/uniform_real_distribution and glibc log are modelled, not verified.")
 
@@ -18,34 +20,34 @@ P = {
     "C01": ("Lean theorems: each block update of the modelled code is a masked MM/Jensen step, so the Poisson log-likelihood does not decrease "
             "(directed variants, under exactly the property's exception clause; w-step also undirected); undirected u-step only `_partial`. "
             "Tie: bit-exact run/trace correspondence model(Float)<->C++ plus an ascent monitor on the implementation's own trajectories. "
-            "One known finding (undirected+general+asymmetric user start).",
-            "Lean 4 proof (MM/Jensen ascent over R) + Float-model/C++ trace correspondence + ascent monitor", "7 C01"),
+            "One known finding (undirected+general+asymmetric user start). Second tie (translator, DESIGN 11.6): the loop nests of update_vertices / update_affinity / calculate_likelyhood are regenerated from solver.hpp on every run and proved equal to the model's entry formulas for every scalar type (MTProps/Code*.lean).",
+            "Lean 4 proof (MM/Jensen ascent over R) + Float-model/C++ trace correspondence + ascent monitor + code translated from solver.hpp proved equal to the model (translator tie)", "7 C01"),
     "C02": ("Lean theorem: the model sweep (loops in code order) equals the paper-form update map with the documented guards, all variants; "
             "tie: function-level bit-exact correspondence of update_vertices/update_affinity/loop on arbitrary and on reachable states, "
-            "plus an independent dense reference map as failing-input oracle.",
-            "Lean 4 proof (refinement of the loop model to the published update equations) + function-level correspondence", "7 C02"),
+            "plus an independent dense reference map as failing-input oracle. Second tie (translator, DESIGN 11.6): the loop nests of update_vertices / update_affinity / calculate_likelyhood are regenerated from solver.hpp on every run and proved equal to the model's entry formulas for every scalar type (MTProps/Code*.lean).",
+            "Lean 4 proof (refinement of the loop model to the published update equations) + function-level correspondence + code translated from solver.hpp proved equal to the model (translator tie)", "7 C02"),
     "C03": ("Lean invariants by induction over sweeps/realizations (shape, label order, non-negativity, zero rows); finiteness is a floating-point fact "
-            "monitored on the implementation (partial).",
-            "Lean 4 proof (invariants by induction) + run correspondence + well-formedness monitor", "7 C03"),
+            "monitored on the implementation (partial). Second tie (translator): Solver::run is proved equal to runAll, about which the invariants are proved.",
+            "Lean 4 proof (invariants by induction) + run correspondence + well-formedness monitor + Solver::run translated and proved equal to runAll", "7 C03"),
     "C04": ("Lean theorems over any linear order: returned = final factors of the first argmax, report lists every realization in order, report prefix, "
-            "best monotone in r; tie: every weak ordering of up to 4 (5) realizations scripted through the hook on the real selection code.",
-            "Lean 4 proof (selection fold = first argmax; prefix) + scripted-likelihood correspondence", "7 C04"),
+            "best monotone in r; tie: every weak ordering of up to 4 (5) realizations scripted through the hook on the real selection code. Second tie (translator): Solver::run (statement sequence from the source, statement table) is proved equal to the model's runAll for every scalar type; non-finite scripted likelihoods and reused Solver objects are exercised.",
+            "Lean 4 proof (selection fold = first argmax; prefix) + scripted-likelihood correspondence + Solver::run translated and proved equal to runAll", "7 C04"),
     "C05": ("Lean theorem: the control automaton of the loop equals the documented stopping rule for all max_it, n_conv >= 1 and all pass/fail sequences; "
-            "termination and bounds proved; tie: exhaustive scripted pass/fail words through the real loop.",
-            "Lean 4 proof (control automaton = documented rule, all sequences) + scripted-word correspondence", "7 C05"),
+            "termination and bounds proved; tie: exhaustive scripted pass/fail words through the real loop. Second tie (translator): the control part of Solver::loop (evaluation period, pass test, counter, three-way return) is regenerated from solver.hpp on every run and proved equal to the model's ctlStep.",
+            "Lean 4 proof (control automaton = documented rule, all sequences) + scripted-word correspondence + translated loop control proved equal to ctlStep", "7 C05"),
     "C06": ("Lean theorem: the threaded accumulator of the likelihood loop equals the closed form sum A ln M - M with per-pair guard; cadence of the reported value; "
-            "tie: lik correspondence on multigraph states and closed-form oracle from the edge list.",
-            "Lean 4 proof (likelihood loop = Poisson closed form) + lik correspondence + closed-form oracle", "7 C06"),
+            "tie: lik correspondence on multigraph states and closed-form oracle from the edge list. Second tie (translator): calculate_likelyhood's loop nest and the control part of Solver::loop are regenerated from solver.hpp on every run and proved equal to the model's likelihood / ctlStep for every scalar type.",
+            "Lean 4 proof (likelihood loop = Poisson closed form) + lik correspondence + closed-form oracle + translated likelihood loop and loop control proved equal to the model", "7 C06"),
     "C07": ("The model is a function of exactly the declared inputs with the prior output contents as explicit arguments; theorem: the result does not depend on them; "
-            "tie: histories of interleaved calls with poisoned outputs, repeated and fresh-process calls, implementation-vs-implementation bit identity.",
-            "Lean 4 proof (independence of prior outputs) + history correspondence, impl-vs-impl bit identity", "7 C07"),
+            "tie: histories of interleaved calls with poisoned outputs, repeated and fresh-process calls, implementation-vs-implementation bit identity. Second tie (translator): Solver::run (statement sequence from the source, statement table) is proved equal to runAll; the only assignment of the report's seed is pinned from main.hpp. Histories also at the level of the public Solver object (run2) and with 5 prior shapes of the in-membership container.",
+            "Lean 4 proof (independence of prior outputs) + history correspondence, impl-vs-impl bit identity + Solver::run translated and proved equal to runAll", "7 C07"),
     "C08": ("Lean theorems: first-appearance indexing, multiplicity = sum of units over matching records (both orientations when undirected), supports, "
             "weight expansion; tie: dump of the real boost graphs vs model, exhaustive small lists + random, all label/weight types.",
             "Lean 4 proof (multigraph built = multiset described by the records) + net correspondence", "7 C08"),
-    "C09": ("Lean theorem: exact mass accounting after the affinity step under the property's preconditions; tie: run correspondence + balance monitor on every iteration.",
-            "Lean 4 proof (mass balance of the affinity M-step) + trace correspondence + balance monitor", "7 C09"),
-    "C10": ("Lean theorem: one sweep commutes with the diagonal embedding (so any number does), likelihoods equal; tie: paired real runs through an exact-install initialiser.",
-            "Lean 4 proof (sweep commutes with diagonal embedding) + paired-run correspondence", "7 C10"),
+    "C09": ("Lean theorem: exact mass accounting after the affinity step under the property's preconditions; tie: run correspondence + balance monitor on every iteration. Second tie (translator, DESIGN 11.6): the loop nests of update_vertices / update_affinity / calculate_likelyhood are regenerated from solver.hpp on every run and proved equal to the model's entry formulas for every scalar type (MTProps/Code*.lean).",
+            "Lean 4 proof (mass balance of the affinity M-step) + trace correspondence + balance monitor + code translated from solver.hpp proved equal to the model (translator tie)", "7 C09"),
+    "C10": ("Lean theorem: one sweep commutes with the diagonal embedding (so any number does), likelihoods equal; tie: paired real runs through an exact-install initialiser. Second tie (translator, DESIGN 11.6): the loop nests of update_vertices / update_affinity / calculate_likelyhood are regenerated from solver.hpp on every run and proved equal to the model's entry formulas for every scalar type (MTProps/Code*.lean).",
+            "Lean 4 proof (sweep commutes with diagonal embedding) + paired-run correspondence + code translated from solver.hpp proved equal to the model (translator tie)", "7 C10"),
     "C11": ("Lean theorems: reversing records whose endpoints were seen before leaves the undirected network structurally equal (hence every result, for any scalar type); "
             "in-membership argument untouched; symmetric affinity preserved over R; tie: net + paired runs bitwise.",
             "Lean 4 proof (structural equality of the undirected network under reversal) + paired-run correspondence", "7 C11"),
@@ -56,16 +58,17 @@ P = {
             "writer layout; tie: the binary built from the working tree observed through its call_start trace event and its files vs model and in-process library.",
             "Lean 4 proof (option parsing, reader round-trip, dispatch by decide) + CLI-binary/trace correspondence", "7 C13"),
     "C14": ("Lean theorems: reader places d_k at the diagonal position for all K, L, both layouts (regenerated index expression), rejects mismatching shapes, every write in range; "
-            "start = file + noise*draws; tie: reader in-process under ASan, realization_start events, CLI end to end.",
-            "Lean 4 proof (reader index = diagonal position, in-range, rejection) + readaff correspondence", "7 C14"),
-    "C15": ("Lean theorem: validate accepts iff the documented predicate holds; rejection happens before anything else; tie: boundary shape vectors x 8 variants with sentinel outputs.",
-            "Lean 4 proof (validate = documented acceptance predicate) + boundary-shape correspondence", "7 C15"),
+            "start = file + noise*draws; tie: reader in-process under ASan, realization_start events, CLI end to end. Second tie (translator): Solver::run = runAll and the from-file initialiser's loop nest (regenerated from initialization.hpp) = initAffFromInitial, for every scalar type.",
+            "Lean 4 proof (reader index = diagonal position, in-range, rejection) + readaff correspondence + run and initialiser code translated from the source proved equal to the model", "7 C14"),
+    "C15": ("Lean theorem: validate accepts iff the documented predicate holds; rejection happens before anything else; tie: boundary shape vectors x 8 variants with sentinel outputs. Second tie (translator): the eleven checks of multitensor_factorization are regenerated from main.hpp statement by statement and proved equal to the model's validate (with their messages); the regenerated statement list shows by decide that no output argument is mentioned before the last check.",
+            "Lean 4 proof (validate = documented acceptance predicate) + boundary-shape correspondence + validation code translated from main.hpp proved equal to validate; statement order by decide", "7 C15"),
     "C16": ("Partial by nature: index-safety theorems (flat index < size, network indices < N, reader writes < size); UB/leaks/overflow are runtime facts covered by running "
-            "every correspondence under ASan+UBSan+LSan+assertions, a file-mutation stream and valgrind memcheck.",
+            "every correspondence under ASan+UBSan(+float-cast-overflow)+LSan+assertions, a file-mutation stream, valgrind memcheck, and the sanitized command-line binary end to end "
+            "on shape-correct affinity files with extreme values (found and fixed defect D5).",
             "Lean 4 proof (index-safety lemmas; partial) + sanitized correspondence, file-mutation stream, valgrind", "7 C16"),
     "C17": ("Lean theorem over an arbitrary stream: realization i starts from the i-th consecutive segment, each draw used once, symmetric pairs share a draw, other rows zero; "
-            "tie: mt19937/uniform model bit-exact vs libstdc++, realization_start multisets vs an independent reference stream.",
-            "Lean 4 proof (initialisers consume consecutive disjoint stream segments) + rng/start correspondence", "7 C17"),
+            "tie: mt19937/uniform model bit-exact vs libstdc++, realization_start multisets vs an independent reference stream. Second tie (translator): the loop nests of the three initialisers are regenerated from initialization.hpp on every run (a generator call becomes the draw at the current stream position) and proved equal to initRows / initAffFromInitial / initAffRandom incl. the mirrored triangular loop; Solver::run = runAll.",
+            "Lean 4 proof (initialisers consume consecutive disjoint stream segments) + rng/start correspondence + initialiser and run code translated from the source proved equal to the model", "7 C17"),
     "C18": ("Lean theorems for all dimensions (no bound): generated index expression = a*R*C + j*R + i, bijective onto 0..size-1 with explicit inverse, transposed view, writer position, "
             "python reshape; tie: definitions regenerated from tensor.hpp/app_utils.hpp/pyx on every run + exhaustive accessor/writer correspondence for dims <= 6.",
             "Lean 4 proof over definitions regenerated from the source (translator) + exhaustive idx correspondence", "7 C18"),
@@ -105,12 +108,14 @@ def main():
         },
         "engines": [{"name": "lean4+correspondence", "path": "/verif/check.py",
                      "serves_properties": sorted(P),
-                     "kind_free_text": "Lean 4 theorems about a scalar-generic executable model (lean/), tied to /repo by a translator for textual facts "
-                                       "(tools/gen_from_source.py) and by a differential correspondence check of the model's Float instance against the real "
+                     "kind_free_text": "Lean 4 theorems about a scalar-generic executable model (lean/), tied to /repo by a translator "
+                                       "(tools/gen_from_source.py: textual facts; tools/cxx2lean.py: the loop nests of the solver's numeric core, the initialisers, the loop control, "
+                                       "the validation part and the statement sequence of Solver::run, regenerated on every run and proved equal to the model) and by a differential correspondence check of the model's Float instance against the real "
                                        "C++ (harness/harness.cpp), with implementation-side monitors as failing-input search"}],
         "checks": checks,
         "not_applicable": [],
-        "notes": "All 19 properties are claimed; none is not_applicable. Known findings and repaired defects: /verif/KNOWN_FINDINGS.txt. See DESIGN.md.",
+        "notes": "All 19 properties are claimed; none is not_applicable (DESIGN.md section 9 says why). Known findings and repaired defects: /verif/KNOWN_FINDINGS.txt. "
+                 "Seeded changes used to test the checks: /verif/seeded (DESIGN.md section 12).",
     }
     with open(os.path.join(VERIF, "MANIFEST.json"), "w") as f:
         json.dump(m, f, indent=1)
